@@ -2,7 +2,7 @@
 import re
 
 from .. import hirq, nf, slicer, panic
-from ..rulelib import (tree_of, slicer_of, user_nodes, writes_to_self, self_method_calls, hir_dominates, check_seeds,
+from ..rulelib import (resolver_of, tree_of, slicer_of, user_nodes, writes_to_self, self_method_calls, hir_dominates, check_seeds,
                        check_roots, short)
 from . import C04
 
@@ -36,8 +36,8 @@ POPULATED_TESTS = {  # normal forms of "some bin is populated"
 }
 
 
-def _idx(n):
-    return nf.nf(n, True)
+def _idx(n, R=None):
+    return nf.nf(n, True, res=R)
 
 
 def break_value_facts(fn):
@@ -69,13 +69,15 @@ def site_facts(fn, node):
     """conditions enclosing the node, facts established by earlier diverging ifs (early `continue`), and facts carried by
     break-with-value loops"""
     t = tree_of(fn)
-    return nf.all_conditions(t, node) + nf.early_facts(t, node) + break_value_facts(fn)
+    R = resolver_of(fn)
+    return nf.all_conditions(t, node, res=R) + nf.early_facts(t, node, res=R) + break_value_facts(fn)
 
 
 def dens_rules(ctx, facts, prefix):
     fid = prefix + "densify"
     fn = facts.fn(fid)
     t = tree_of(fn)
+    R = resolver_of(fn)
     ws = writes_to_self(fn)
     n_inst = 0
     # targets
@@ -83,7 +85,7 @@ def dens_rules(ctx, facts, prefix):
         if f not in ("values", "hsketch", "init"):
             continue
         n_inst += 1
-        tt = _idx(idx[0])
+        tt = _idx(idx[0], R)
         conds = site_facts(fn, w)
         if ("truth", "self.init[%s]" % tt, False) in conds:
             ctx.ok("DENS-target", fid, "%s[%s] written under !init[%s]" % (f, tt, tt), hirq.loc(w))
@@ -94,14 +96,14 @@ def dens_rules(ctx, facts, prefix):
     copies = [(w, f, idx) for (w, f, idx) in ws if f in ("values", "hsketch")]
     for (w, f, idx) in copies:
         n_inst += 1
-        tt = _idx(idx[0])
+        tt = _idx(idx[0], R)
         src = nf.strip(w["r"])
         kind, key, proj, sidx = slicer.base_place(src)
         conds = site_facts(fn, w)
         if not (src["k"] == "Index" and kind == "self" and key == f and len(sidx) == 1):
             ctx.violation("DENS-source", fid, "%s source" % f, hirq.loc(w), "`%s` does not copy %s from another bin of the same array" % (nf.nf(w)[:60], f))
             continue
-        ss = _idx(sidx[0])
+        ss = _idx(sidx[0], R)
         if ("truth", "self.init[%s]" % ss, True) in conds:
             ctx.ok("DENS-source", fid, "%s[%s] read under init[%s]" % (f, ss, ss), hirq.loc(w))
         else:
@@ -109,8 +111,8 @@ def dens_rules(ctx, facts, prefix):
                           "`%s` reads bin %s without being control-dependent on `self.init[%s]`: an unpopulated bin (placeholder) could be copied; conditions: %s" % (nf.nf(w)[:60], ss, ss, conds[:3]))
         blk = t.parent.get(id(w))
         other = "hsketch" if f == "values" else "values"
-        mates = [x for (x, ff, ii) in copies if ff == other and t.parent.get(id(x)) is blk and _idx(ii[0]) == tt
-                 and nf.nf(x["r"]) == "self.%s[%s]" % (other, ss)]
+        mates = [x for (x, ff, ii) in copies if ff == other and t.parent.get(id(x)) is blk and _idx(ii[0], R) == tt
+                 and nf.nf(x["r"], True, res=R) == "self.%s[%s]" % (other, ss)]
         if mates:
             ctx.ok("PAIR", fid, "%s[%s] = %s[%s] together with %s[%s] = %s[%s]" % (f, tt, f, ss, other, tt, other, ss), hirq.loc(w))
         else:
@@ -124,13 +126,14 @@ def bookkeeping(ctx, facts, prefix):
         fid = prefix + name
         fn = facts.fn(fid)
         t = tree_of(fn)
+        R = resolver_of(fn)
         ws = writes_to_self(fn)
         inits = [(w, i) for (w, f, i) in ws if f == "init"]
         decs = [w for (w, f, i) in ws if f == "nb_empty"]
         used = set()
         for (w, idx) in inits:
             n += 1
-            x = _idx(idx[0])
+            x = _idx(idx[0], R)
             blk = t.parent.get(id(w))
             conds = site_facts(fn, w)
             mate = [d for d in decs if t.parent.get(id(d)) is blk and d["k"] == "AssignOp" and d["op"] == "-=" and nf.nf(d["r"]) == "1"]
@@ -146,6 +149,9 @@ def bookkeeping(ctx, facts, prefix):
     for fid, fn in facts.fns.items():
         if "hir" not in fn or not fid.startswith(prefix) or short(fid) in ("new", "reinit", "sketch", "densify"):
             continue
+        from .. import inline
+        if inline.absorbed(facts, fid):
+            continue     # a new private helper whose every call was inlined: its writes are judged in its callers
         for (w, f, i) in writes_to_self(fn):
             if f in ("init", "nb_empty", "values", "hsketch"):
                 ctx.violation("BOOKKEEPING", fid, "%s written outside sketch/densify/new/reinit" % f, hirq.loc(w), "`%s`" % nf.nf(w)[:60])
